@@ -449,7 +449,11 @@ where
     }
 
     async fn read_root(file: &File, root_offset: u64) -> Result<BytesMut> {
-        let buf_size = std::cmp::min((file.size() - root_offset) as usize, BLOCK_SIZE);
+        // The offset comes from the file: a corrupted one may point beyond its end
+        let rest = file.size().checked_sub(root_offset).ok_or_else(|| {
+            IOError::new(IOErrorKind::UnexpectedEof, "index tree root offset is beyond the end of the index file")
+        })?;
+        let buf_size = std::cmp::min(rest, BLOCK_SIZE as u64) as usize;
         let mut buf = BytesMut::zeroed(BLOCK_SIZE);
         buf.resize(buf_size, 0);
         let mut buf = file.read_exact_at(buf, root_offset).await?;
